@@ -25,6 +25,7 @@ fn main() {
             "ppush" => packed::push(rest),
             "spath" => strings::path(rest),
             "sjson" => strings::json(rest),
+            "swrite" => strings::write(rest),
             _ => l(vec![z(-998)]),
         });
         let o = r.unwrap_or_else(|_| panic());
